@@ -582,3 +582,127 @@ Proof.
   - intros [?|S]; [discriminate|]. pose proof (proj1 (proj1 S)) as L.
     cbn [List.length] in L. injection L as L. explode c L. apply valid_IN_explicit. exact S.
 Qed.
+
+(* ======================= AE ======================= *)
+Theorem valid_AE_iff_spec c : valid_AE c = true <-> c = [] \/ Spec_AE c.
+Proof.
+  destruct c as [|x c]; [split; auto|]. unfold valid_AE, nonempty, Spec_AE. split.
+  - intro V. right. split; [apply (digits_n_length _ _ V) | apply digits_between_of_digits_n; exact V].
+  - intros [?|(L & Dg)]; [discriminate|]. apply digits_n_of_between; assumption.
+Qed.
+
+(* ======================= GB, all forms ======================= *)
+Theorem gb_commercial_iff_spec_12 c :
+  List.length c = 12%nat ->
+  (digits_n 12 c = true /\ gb_commercial c = true <-> Spec_GB_commercial c).
+Proof.
+  intro L. unfold Spec_GB_commercial, Spec_GB_commercial_with. rewrite L. split.
+  - intros (D & V). split; [right; reflexivity|]. split; [apply digits_between_of_digits_n; exact D|].
+    rewrite gb_commercial_unfold in V. pose proof (digits_n_bounds _ _ D) as Hd. explode c L. pose_upto Hd 12%nat. clear Hd D.
+    destruct (num_of _ =? 0) eqn:Z0; [discriminate|]. split; [lia|]. cbv zeta in V.
+    rewrite gb_sub97_closed in V by (cbn [digs map wsum gb_mults nthb nth] in *; lia).
+    unfold number, gb_old_range, gb_9755, gb_check_number, gb_weighted, dig.
+    cbn [digs map wsum gb_mults nthb nth] in *.
+    match goal with |- context [num_of (sub 0 7 ?l)] => generalize dependent (num_of (sub 0 7 l)) end. intros num V.
+    match goal with |- context [num_of (sub 7 9 ?l)] => generalize dependent (num_of (sub 7 9 l)) end. intros last V.
+    clear Z0. abstract_dv.
+    destruct (_ && _ && _ && _) eqn:E in V; [left; lia|right].
+    destruct (55 <=? _) eqn:E2 in V;
+      match goal with |- context [if ?g then _ else _] => destruct g eqn:E3 end; lia.
+  - intros (_ & Dg & NZ & A). pose proof (digits_n_of_between _ c L Dg) as D. split; [exact D|].
+    rewrite gb_commercial_unfold. pose proof (digits_n_bounds _ _ D) as Hd. explode c L. pose_upto Hd 12%nat. clear Hd D Dg.
+    destruct (num_of _ =? 0) eqn:Z0; [lia|]. cbv zeta.
+    rewrite gb_sub97_closed by (cbn [digs map wsum gb_mults nthb nth] in *; lia).
+    unfold number, gb_old_range, gb_9755, gb_check_number, gb_weighted, dig in A.
+    cbn [digs map wsum gb_mults nthb nth] in *.
+    match goal with |- context [num_of (sub 0 7 ?l)] => generalize dependent (num_of (sub 0 7 l)) end. intros num A.
+    match goal with |- context [num_of (sub 7 9 ?l)] => generalize dependent (num_of (sub 7 9 l)) end. intros last A.
+    clear Z0 NZ. abstract_dv.
+    destruct (_ && _ && _ && _) eqn:E; [reflexivity|].
+    destruct A as [A|A]; [lia|].
+    match type of A with context [if ?g then _ else _] => destruct g eqn:E2 end;
+      match goal with |- context [if ?g then _ else _] => destruct g eqn:E3 end; lia.
+Qed.
+
+Lemma digit_not_GH x : is_digit x = true -> Byte.eqb "G" x = false /\ Byte.eqb "H" x = false.
+Proof. bytecases x. Qed.
+Lemma digit_first_no_prefix x c : is_digit x = true ->
+  has_prefix (bs "GD") (x :: c) = false /\ has_prefix (bs "HA") (x :: c) = false /\
+  gb_fmt_gd (x :: c) = false /\ gb_fmt_ha (x :: c) = false.
+Proof.
+  intro D. destruct (digit_not_GH x D) as [N1 N2].
+  assert (B1 : beq x 71 = false) by (revert D; unfold beq, is_digit; lia).
+  assert (B2 : beq x 72 = false) by (revert D; unfold beq, is_digit; lia).
+  change (bs "GD") with ["G"; "D"]%byte. change (bs "HA") with ["H"; "A"]%byte.
+  unfold gb_fmt_gd, gb_fmt_ha. cbn [has_prefix match_classes]. rewrite N1, N2, B1, B2. repeat split; reflexivity.
+Qed.
+
+Lemma beq_eq b z : 0 <= z < 256 -> (beq b z = true <-> b = byte_of_Z z).
+Proof.
+  intro R. split.
+  - intro H. apply bZ_inj. rewrite bZ_byte_of_Z by exact R. apply byte_of_beq. exact H.
+  - intros ->. unfold beq. rewrite bZ_byte_of_Z by exact R. lia.
+Qed.
+
+(* the five-character forms *)
+Lemma gb_special_iff a b d1 d2 d3 :
+  let c := [a; b; d1; d2; d3] in
+  valid_GB c = true <-> Spec_GB_special c.
+Proof.
+  cbv zeta. unfold valid_GB, nonempty, Spec_GB_special, digits_n, gb_fmt_gd, gb_fmt_ha, number.
+  change (sub 2 5 [a; b; d1; d2; d3]) with [d1; d2; d3]. change (skipn 2 [a; b; d1; d2; d3]) with [d1; d2; d3].
+  change (bs "GD") with ["G"; "D"]%byte. change (bs "HA") with ["H"; "A"]%byte.
+  cbn [rep repeat match_classes has_prefix nthb nth List.length]. rewrite !andb_false_r, !andb_true_r. cbn [orb].
+  assert (D3 : digits_between [a; b; d1; d2; d3] 2 5 <-> is_digit d1 && (is_digit d2 && is_digit d3) = true).
+  { split.
+    - intro Dg. pose_between Dg 2%nat 3%nat. solve_digits.
+    - intro M. split_all M. solve_between 5%nat. }
+  rewrite D3. generalize (num_of [d1; d2; d3]). intro n.
+  assert (EG : Byte.eqb "G" a = beq a 71) by (destruct (Byte.eqb "G" a) eqn:E; [apply byte_eqb_eq in E; subst a; reflexivity | destruct (beq a 71) eqn:E2; [apply beq_eq in E2; [subst a; discriminate E | lia] | reflexivity]]).
+  assert (ED : Byte.eqb "D" b = beq b 68) by (destruct (Byte.eqb "D" b) eqn:E; [apply byte_eqb_eq in E; subst b; reflexivity | destruct (beq b 68) eqn:E2; [apply beq_eq in E2; [subst b; discriminate E | lia] | reflexivity]]).
+  assert (EH : Byte.eqb "H" a = beq a 72) by (destruct (Byte.eqb "H" a) eqn:E; [apply byte_eqb_eq in E; subst a; reflexivity | destruct (beq a 72) eqn:E2; [apply beq_eq in E2; [subst a; discriminate E | lia] | reflexivity]]).
+  assert (EA : Byte.eqb "A" b = beq b 65) by (destruct (Byte.eqb "A" b) eqn:E; [apply byte_eqb_eq in E; subst b; reflexivity | destruct (beq b 65) eqn:E2; [apply beq_eq in E2; [subst b; discriminate E | lia] | reflexivity]]).
+  rewrite EG, ED, EH, EA.
+  assert (IG : a = "G"%byte <-> beq a 71 = true) by (rewrite beq_eq by lia; reflexivity).
+  assert (ID : b = "D"%byte <-> beq b 68 = true) by (rewrite beq_eq by lia; reflexivity).
+  assert (IH : a = "H"%byte <-> beq a 72 = true) by (rewrite beq_eq by lia; reflexivity).
+  assert (IA : b = "A"%byte <-> beq b 65 = true) by (rewrite beq_eq by lia; reflexivity).
+  rewrite IG, ID, IH, IA.
+  assert (X : beq a 71 = true -> beq a 72 = false) by (unfold beq; lia).
+  destruct (beq a 71) eqn:B1; destruct (beq b 68) eqn:B2; destruct (beq a 72) eqn:B3; destruct (beq b 65) eqn:B4;
+    destruct (is_digit d1 && (is_digit d2 && is_digit d3)) eqn:M; cbn [andb orb negb];
+    try (specialize (X eq_refl); discriminate X);
+    (split; [ intro V; first [ discriminate V
+                             | split; [reflexivity|]; split; [reflexivity|]; first [left; repeat split; lia | right; repeat split; lia] ]
+            | intros (_ & F & [(F1 & F2 & F3)|(F1 & F2 & F3)]);
+              first [discriminate F | discriminate F1 | discriminate F2 | lia ] ]).
+Qed.
+
+Theorem valid_GB_iff_spec c : valid_GB c = true <-> c = [] \/ Spec_GB c.
+Proof.
+  destruct c as [|x c]; [split; auto|]. unfold Spec_GB, Spec_GB_with. fold Spec_GB_commercial. split.
+  - intro V. right.
+    assert (F : digits_n 9 (x :: c) || digits_n 12 (x :: c) || gb_fmt_gd (x :: c) || gb_fmt_ha (x :: c) = true).
+    { unfold valid_GB, nonempty in V. destruct (_ || _ || _ || _); [reflexivity | discriminate V]. }
+    apply orb_prop in F. destruct F as [F|F]; [apply orb_prop in F; destruct F as [F|F]; [apply orb_prop in F; destruct F as [F|F]|]|].
+    + left. pose proof (digits_n_length _ _ F) as L. rewrite (gb_valid_9 _ F) in V.
+      apply (gb_commercial_iff_spec_9 _ L). split; assumption.
+    + left. pose proof (digits_n_length _ _ F) as L.
+      apply (gb_commercial_iff_spec_12 _ L). split; [exact F|].
+      pose proof (digits_n_nth 12 _ 0%nat F ltac:(lia)) as D0. cbn [nthb nth] in D0.
+      destruct (digit_first_no_prefix x c D0) as (P1 & P2 & P3 & P4).
+      unfold valid_GB, nonempty in V. rewrite F, P1, P2, orb_true_r in V. exact V.
+    + right. pose proof (match_classes_length _ _ F) as L. cbn [List.length rep repeat] in L.
+      cbn [List.length] in L. injection L as L. explode c L. apply gb_special_iff. exact V.
+    + right. pose proof (match_classes_length _ _ F) as L. cbn [List.length rep repeat] in L.
+      cbn [List.length] in L. injection L as L. explode c L. apply gb_special_iff. exact V.
+  - intros [?|[S|S]]; [discriminate| |].
+    + pose proof S as (L & Dg & _).
+      assert (D0 : is_digit x = true) by (apply (Dg 0%nat); destruct L as [L|L]; rewrite L; lia).
+      destruct (digit_first_no_prefix x c D0) as (P1 & P2 & P3 & P4).
+      destruct L as [L|L].
+      * apply (gb_commercial_iff_spec_9 _ L) in S. destruct S as (D & S). rewrite (gb_valid_9 _ D). exact S.
+      * apply (gb_commercial_iff_spec_12 _ L) in S. destruct S as (D & S).
+        unfold valid_GB, nonempty. rewrite D, P1, P2, orb_true_r. exact S.
+    + pose proof (proj1 S) as L. cbn [List.length] in L. injection L as L. explode c L. apply gb_special_iff. exact S.
+Qed.
